@@ -85,7 +85,7 @@ fn main() {
                 "C06" => props::c06(&mut c, &b),
                 "C07" => props::c07(&mut c, &b),
                 "C08" => props2::c08(&mut c, &b),
-                "C09" => props4::c09(&mut c, &b),
+                "C09" => { props4::c09(&mut c, &b); props4::c09_glue(&mut c, &b); }
                 "C10" => props4::c10(&mut c, &b),
                 "C11" => props4::c11(&mut c, &b),
                 "C12" => props2::c12(&mut c, &b),
